@@ -7,6 +7,7 @@ import (
 	"go/token"
 	"go/types"
 	"strings"
+	"sync"
 
 	"golang.org/x/tools/go/ssa"
 )
@@ -27,7 +28,7 @@ type Frame struct {
 	fn        *ssa.Function
 	block     *ssa.BasicBlock
 	prevBlock *ssa.BasicBlock
-	env       []Value
+	env       []*[envChunk]Value
 	info      *fnInfo
 	locals    []Value
 	defers    *deferred
@@ -50,7 +51,10 @@ func (fr *Frame) get(key ssa.Value) Value {
 		return fr.p.globalAddr(key)
 	}
 	if i, ok := fr.info.idx[key]; ok {
-		return fr.env[i]
+		if c := fr.env[i>>envShift]; c != nil {
+			return c[i&envMask]
+		}
+		return nil
 	}
 	panic(fmt.Sprintf("get: no value for %T: %v in %s", key, key.Name(), fr.fn))
 }
@@ -240,13 +244,25 @@ func (p *Path) call(th *Thread, caller *Frame, fn Value, args []Value) Value {
 	panic(fmt.Sprintf("cannot call %T", fn))
 }
 
+var fnProfile map[*ssa.Function]int
+var fnProfileMu sync.Mutex
+
 type IntrinsicFn struct {
 	name string
 	f    func(p *Path, th *Thread, fr *Frame, args []Value) Value
 }
 
+func (e *Engine) fnName(fn *ssa.Function) string {
+	if v, ok := e.fnNames.Load(fn); ok {
+		return v.(string)
+	}
+	s := fn.String()
+	e.fnNames.Store(fn, s)
+	return s
+}
+
 func (p *Path) callSSA(th *Thread, caller *Frame, fn *ssa.Function, args []Value, env []Value) Value {
-	name := fn.String()
+	name := p.e.fnName(fn)
 	if strings.HasPrefix(fn.Name(), "verif") {
 		if f, ok := harnessAPI[fn.Name()]; ok {
 			return f(p, th, caller, args)
@@ -263,8 +279,8 @@ func (p *Path) callSSA(th *Thread, caller *Frame, fn *ssa.Function, args []Value
 		return f(p, th, caller, args)
 	}
 	if fn.Origin() != nil {
-		if f, ok := intrinsics[fn.Origin().String()]; ok {
-			p.intr[fn.Origin().String()]++
+		if f, ok := intrinsics[p.e.fnName(fn.Origin())]; ok {
+			p.intr[p.e.fnName(fn.Origin())]++
 			return f(p, th, caller, args)
 		}
 	}
@@ -302,7 +318,7 @@ func (p *Path) callSSA(th *Thread, caller *Frame, fn *ssa.Function, args []Value
 	}
 	fr := &Frame{p: p, th: th, caller: caller, fn: fn}
 	fr.info = p.e.fnInfoOf(fn)
-	fr.env = make([]Value, fr.info.n)
+	fr.env = make([]*[envChunk]Value, (fr.info.n+envChunk-1)>>envShift)
 	fr.block = fn.Blocks[0]
 	fr.locals = make([]Value, len(fn.Locals))
 	for i, l := range fn.Locals {
@@ -355,6 +371,11 @@ func (p *Path) runFrame(fr *Frame) {
 	for {
 		for _, instr := range fr.block.Instrs {
 			p.steps++
+			if fnProfile != nil {
+				fnProfileMu.Lock()
+				fnProfile[fr.fn]++
+				fnProfileMu.Unlock()
+			}
 			if p.steps > p.e.cfg.MaxSteps {
 				p.stepBudget()
 			}
@@ -714,13 +735,27 @@ func constantString(c *ssa.Const) string {
 
 var _ = token.ADD
 
+// The SSA values of a frame live in lazily allocated chunks: the generated archetype bodies and the TLA+ evaluator
+// have thousands of SSA values per function of which one call touches a few.
+const (
+	envShift = 4
+	envChunk = 1 << envShift
+	envMask  = envChunk - 1
+)
+
 type fnInfo struct {
 	idx map[ssa.Value]int
 	n   int
 }
 
 func (fr *Frame) set(key ssa.Value, v Value) {
-	fr.env[fr.info.idx[key]] = v
+	i := fr.info.idx[key]
+	c := fr.env[i>>envShift]
+	if c == nil {
+		c = new([envChunk]Value)
+		fr.env[i>>envShift] = c
+	}
+	c[i&envMask] = v
 }
 
 func (e *Engine) fnInfoOf(fn *ssa.Function) *fnInfo {
